@@ -55,6 +55,39 @@ type c15x struct {
 	// bind maps the parameters of a goroutine body started as `go f(args…)` to the
 	// arguments of the go statement, so that origins are followed into the starter.
 	bind map[*ssa.Parameter]ssa.Value
+	// up: leaves() also follows the parameters of extracted helpers into the arguments of all
+	// their call sites (switched on by rules whose constructs may sit in such a helper).
+	up bool
+	// tree (optional): context tree of the rule's anchor; leaves() first rewrites a value to its
+	// canonical definition in the context its function runs in (eng.Canon: parameters of direct
+	// calls and go statements, fields of a struct holding the values a former closure captured,
+	// single-valued helper results).
+	tree *eng.DownTree
+}
+
+// canon applies eng.Canon when v belongs to a function that runs in exactly one context of x.tree.
+func (x *c15x) canon(v ssa.Value) ssa.Value {
+	if x.tree == nil || v == nil {
+		return v
+	}
+	var fn *ssa.Function
+	switch n := v.(type) {
+	case ssa.Instruction:
+		fn = n.Parent()
+	case *ssa.Parameter:
+		fn = n.Parent()
+	case *ssa.FreeVar:
+		fn = n.Parent()
+	}
+	if fn == nil {
+		return v
+	}
+	if ds := x.tree.Of(fn); len(ds) == 1 {
+		if r := ds[0].Canon(v); r.V != nil {
+			return r.V
+		}
+	}
+	return v
 }
 
 // leaves is Slicer.Leaves with bound goroutine parameters replaced by their arguments.
@@ -63,10 +96,19 @@ func (x *c15x) leaves(v ssa.Value, stop func(ssa.Value) bool) []ssa.Value {
 	seen := map[ssa.Value]bool{}
 	var rec func(v ssa.Value, d int)
 	rec = func(v ssa.Value, d int) {
+		v = x.canon(v)
 		for _, l := range x.sl.Leaves(v, stop) {
-			if p, ok := l.(*ssa.Parameter); ok && d > 0 {
+			if p, ok := l.(*ssa.Parameter); ok && d > 0 && (stop == nil || !stop(l)) {
 				if b, bound := x.bind[p]; bound {
 					rec(b, d-1)
+					continue
+				}
+				// a parameter of an extracted helper whose callers are all known: the origins are
+				// those of the arguments at every call site
+				if ups := eng.UpArgs(p); x.up && len(ups) > 0 {
+					for _, a := range ups {
+						rec(a, d-1)
+					}
 					continue
 				}
 			}
@@ -82,7 +124,7 @@ func (x *c15x) leaves(v ssa.Value, stop func(ssa.Value) bool) []ssa.Value {
 
 // bindGo records the parameter bindings of a go statement with a static callee.
 func (x *c15x) bindGo(g *ssa.Go, f *ssa.Function) {
-	if _, isClosure := g.Call.Value.(*ssa.MakeClosure); isClosure || g.Call.IsInvoke() {
+	if g.Call.IsInvoke() {
 		return
 	}
 	for i, p := range f.Params {
@@ -154,14 +196,48 @@ func c15Cancels(ins ssa.Instruction, isSubject func(ssa.Value) bool, sp c15Cance
 		return false
 	}
 	for i, a := range cc.Args {
-		if i < len(callee.Params) && isSubject(a) {
-			p := callee.Params[i]
+		if i >= len(callee.Params) {
+			continue
+		}
+		p := callee.Params[i]
+		if isSubject(a) {
 			if c15AlwaysCancels(callee.Blocks[0], func(v ssa.Value) bool { return v == ssa.Value(p) }, sp, depth-1, nil) {
 				return true
 			}
 		}
+		// the subject's cancel function itself is handed to a helper that invokes it on every path
+		// on which it is set (`cancelIfSet(x.cancel)`)
+		if base := eng.FieldBase(a, sp.typ, sp.field); base != nil && isSubject(base) && c15AlwaysInvokes(callee, p) {
+			return true
+		}
 	}
 	return false
+}
+
+// c15AlwaysInvokes: every path through fn calls its function-typed parameter p, except the
+// paths on which p is known to be nil.
+func c15AlwaysInvokes(fn *ssa.Function, p *ssa.Parameter) bool {
+	if len(fn.Blocks) == 0 {
+		return false
+	}
+	return eng.ReachFromEntry(fn, eng.PathQuery{
+		Target: eng.IsExit,
+		Avoid: func(i ssa.Instruction) bool {
+			ci, ok := i.(ssa.CallInstruction)
+			return ok && !ci.Common().IsInvoke() && ci.Common().StaticCallee() == nil && ci.Common().Value == ssa.Value(p)
+		},
+		BlockEdge: func(from *ssa.BasicBlock, succ int) bool {
+			iff, ok := from.Instrs[len(from.Instrs)-1].(*ssa.If)
+			if !ok {
+				return false
+			}
+			rel := eng.RelOf(iff.Cond, succ == 0)
+			if rel.Op != token.EQL {
+				return false
+			}
+			return (rel.X == ssa.Value(p) && eng.IsNilConst(rel.Y)) || (rel.Y == ssa.Value(p) && eng.IsNilConst(rel.X))
+		},
+	}) == nil
 }
 
 // c15AlwaysCancels reports whether every path from the start of block b to an exit of its
@@ -324,61 +400,41 @@ func (x *c15x) ctxCancelPair(typ string, each func(st *ssa.Store, w *ssa.Call) (
 	}
 }
 
+// probeCtxCreations returns the context.WithCancel calls of fn whose cancel function is kept
+// in an endpoint's cancelHealthCheck (fn creates the context its prober goroutines watch).
+func (x *c15x) probeCtxCreations(fn *ssa.Function) []*ssa.Call {
+	var out []*ssa.Call
+	for _, cs := range eng.StoresToField([]*ssa.Function{fn}, c15TEndpoint, "cancelHealthCheck") {
+		if cw := x.resultsOf(cs.Val, 1, c15IsWithCancel); len(cw) == 1 && cw[0].Parent() == fn {
+			dup := false
+			for _, o := range out {
+				if o == cw[0] {
+					dup = true
+				}
+			}
+			if !dup {
+				out = append(out, cw[0])
+			}
+		}
+	}
+	return out
+}
+
 func c15R1(x *c15x) {
 	c := x.c
 	// (1) cluster pair
 	x.ctxCancelPair(c15TCluster, nil)
 	// (2) endpoint pair, child of the ctx of the cluster the endpoint is registered in
 	x.ctxCancelPair(c15TEndpoint, func(st *ssa.Store, w *ssa.Call) (bool, string) {
-		fn := st.Parent()
-		var recv ssa.Value // filled below: the cluster whose ctx is the parent
-		parent := w.Call.Args[0]
-		isClusterCtx := func(v ssa.Value) bool {
-			if eng.FieldLoadOf(v, c15TCluster, "ctx") {
-				return true
-			}
-			cc, _ := eng.CallResultOf(v)
-			return cc != nil && eng.IsCall(cc, "(*"+c15TCluster+").Context")
-		}
-		leaves := x.sl.Leaves(parent, isClusterCtx)
-		if len(leaves) == 0 {
-			return false, "parent context of unknown origin"
-		}
-		for _, l := range leaves {
-			var owner ssa.Value
-			if b := eng.FieldBase(l, c15TCluster, "ctx"); b != nil {
-				owner = b
-			} else if cc, _ := eng.CallResultOf(l); cc != nil && isClusterCtx(l) {
-				owner = eng.Receiver(cc)
-			}
-			if owner == nil {
-				return false, "the endpoint's context is not derived from a cluster context (e.g. context.Background()): ClusterInfo.Stop() on deletion of the cluster no longer ends the requests and probes of this endpoint"
-			}
-			if p, isP := owner.(*ssa.Parameter); !isP || p.Parent() != fn {
-				return false, "the cluster whose context is the parent is not a parameter/receiver of the creating function: cannot tell that it is the cluster the endpoint belongs to"
-			}
-			if recv != nil && owner != recv {
-				return false, "the endpoint's context has parents in two different clusters"
-			}
-			recv = owner
-		}
-		// the endpoint object is registered in the receiver's own map
-		obj := st.Addr.(*ssa.FieldAddr).X
-		registered := false
-		for _, ci := range eng.CallsTo(fn, "(*"+c15TEPMap+").Store", "(*"+c15TEPMap+").LoadOrStore") {
-			a := eng.Args(ci)
-			if len(a) == 2 && a[1] == obj && eng.FieldBase(eng.Receiver(ci), c15TCluster, "Endpoints") == recv {
-				registered = true
-			}
-		}
-		if !registered {
-			return false, "the endpoint whose context is created here is not stored into the Endpoints map of the cluster whose context is its parent (it would be cancelled with one cluster and serve another)"
-		}
-		return true, ""
+		return x.endpointCtxOK(st.Parent(), w.Call.Args[0], st.Addr.(*ssa.FieldAddr).X, eng.LiftDepth)
 	})
 
-	// (3) probe context
-	start := c.MustFunc(pkgClusters, "startGatewayHealthCheck")
+	// (3) probe context. The context the prober goroutines watch is created by a
+	// context.WithCancel whose cancel function is kept in the endpoint's cancelHealthCheck —
+	// by the caller of the function that starts the goroutines (which is handed the new
+	// context), or, when that single-use function was merged into its caller, right in the
+	// function that starts them.
+	start := c03ProbeStarter(c)
 	if start != nil {
 		ctxIdx, epIdx := -1, -1
 		for i, p := range start.Params {
@@ -389,74 +445,102 @@ func c15R1(x *c15x) {
 				epIdx = i
 			}
 		}
-		n := 0
-		for _, fn := range c.W.AllRepoFuncs() {
-			for _, ci := range eng.CallsToFn(fn, start) {
-				n++
-				construct := x.nth(fn, "probe ctx = WithCancel(ctx argument), cancel kept in cancelHealthCheck")
-				args := ci.Common().Args
-				if ctxIdx < 0 || epIdx < 0 || ctxIdx >= len(args) {
-					c.Undecided("R1", fn, construct, ci.Pos(), "startGatewayHealthCheck has no (endpoint, context) parameters")
+		// judge decides one creation w of a probe context in fn for endpoint ep
+		judge := func(fn *ssa.Function, w *ssa.Call, ep ssa.Value, pos token.Pos, construct string) {
+			ok, why := true, ""
+			// parent: a context parameter of the enclosing function, or the endpoint's own ctx
+			var parentParam *ssa.Parameter
+			for _, l := range x.sl.Leaves(w.Call.Args[0], func(v ssa.Value) bool { return eng.FieldLoadOf(v, c15TEndpoint, "ctx") }) {
+				if p, isP := l.(*ssa.Parameter); isP && p.Parent() == fn && c15IsContext(p.Type()) {
+					parentParam = p
 					continue
 				}
-				ws := x.resultsOf(args[ctxIdx], 0, c15IsWithCancel)
-				if len(ws) != 1 {
-					x.check("R1", fn, construct, ci.Pos(), false, "the probe goroutines do not get their own cancellable context: disabling the endpoint cannot stop them")
+				if b := eng.FieldBase(l, c15TEndpoint, "ctx"); b != nil && eng.SameValue(unspill(b), unspill(ep)) {
 					continue
 				}
-				w := ws[0]
-				ok, why := true, ""
-				// parent: a context parameter of the enclosing function, or the endpoint's own ctx
-				var parentParam *ssa.Parameter
-				for _, l := range x.sl.Leaves(w.Call.Args[0], func(v ssa.Value) bool { return eng.FieldLoadOf(v, c15TEndpoint, "ctx") }) {
-					if p, isP := l.(*ssa.Parameter); isP && p.Parent() == fn && c15IsContext(p.Type()) {
-						parentParam = p
-						continue
-					}
-					if b := eng.FieldBase(l, c15TEndpoint, "ctx"); b != nil && eng.SameValue(b, args[epIdx]) {
-						continue
-					}
-					ok, why = false, "the probe context is not a child of the endpoint's context: removing the endpoint (or deleting its cluster) does not stop the probes"
+				ok, why = false, "the probe context is not a child of the endpoint's context: removing the endpoint (or deleting its cluster) does not stop the probes"
+			}
+			// paired cancel kept on the same endpoint
+			kept := false
+			for _, cs := range eng.StoresToField([]*ssa.Function{fn}, c15TEndpoint, "cancelHealthCheck") {
+				if cw := x.resultsOf(cs.Val, 1, c15IsWithCancel); len(cw) == 1 && cw[0] == w && eng.SameValue(unspill(cs.Addr.(*ssa.FieldAddr).X), unspill(ep)) {
+					kept = true
 				}
-				// paired cancel kept on the same endpoint
-				kept := false
-				for _, cs := range eng.StoresToField([]*ssa.Function{fn}, c15TEndpoint, "cancelHealthCheck") {
-					if cw := x.resultsOf(cs.Val, 1, c15IsWithCancel); len(cw) == 1 && cw[0] == w && eng.SameValue(cs.Addr.(*ssa.FieldAddr).X, args[epIdx]) {
-						kept = true
+			}
+			if ok && !kept {
+				ok, why = false, "the cancel function paired with the probe context is not kept in the endpoint's cancelHealthCheck"
+			}
+			x.check("R1", fn, construct, pos, ok, why)
+			// callers of the enclosing function pass the endpoint's own ctx
+			if ok && parentParam != nil {
+				pIdx, eIdx := -1, -1
+				for i, p := range fn.Params {
+					if p == parentParam {
+						pIdx = i
+					}
+					if ssa.Value(p) == unspill(ep) {
+						eIdx = i
 					}
 				}
-				if ok && !kept {
-					ok, why = false, "the cancel function paired with the probe context is not kept in the endpoint's cancelHealthCheck"
-				}
-				x.check("R1", fn, construct, ci.Pos(), ok, why)
-				// callers of the enclosing function pass the endpoint's own ctx
-				if ok && parentParam != nil {
-					pIdx, eIdx := -1, -1
-					for i, p := range fn.Params {
-						if p == parentParam {
-							pIdx = i
-						}
-						if ssa.Value(p) == args[epIdx] {
-							eIdx = i
-						}
-					}
-					nc := 0
+				nc := 0
+				var callers func(fn *ssa.Function, pIdx, eIdx, depth int)
+				callers = func(fn *ssa.Function, pIdx, eIdx, depth int) {
 					for _, g := range c.W.AllRepoFuncs() {
 						for _, cs := range eng.CallsToFn(g, fn) {
 							nc++
 							a := cs.Common().Args
 							same := pIdx >= 0 && eIdx >= 0 && pIdx < len(a) && eIdx < len(a)
+							origins := 1
 							if same {
-								b := eng.FieldBase(a[pIdx], c15TEndpoint, "ctx")
-								same = b != nil && eng.SameValue(b, a[eIdx])
+								// a step function that hands its own (context, endpoint) parameters on: its callers decide
+								pp, isPP := unspill(a[pIdx]).(*ssa.Parameter)
+								ep2, isEP := unspill(a[eIdx]).(*ssa.Parameter)
+								if isPP && isEP && pp.Parent() == g && ep2.Parent() == g && depth > 0 && len(c.W.StaticCallSites(g)) > 0 {
+									nc--
+									callers(g, eng.ParamIndex(pp), eng.ParamIndex(ep2), depth-1)
+									continue
+								}
+								same = c03OwnCtx(a[pIdx], a[eIdx])
+								// one obligation per endpoint the call may be about: two branches (update / add)
+								// that share one call — directly or through a wrapping helper — are still two starts
+								origins = c03EndpointOrigins(c, a[eIdx], eng.LiftDepth)
 							}
-							x.check("R1", g, x.nth(g, "health check started under the endpoint's own ctx"), cs.Pos(), same,
-								"the context handed to "+fn.Name()+" is not the ctx field of the endpoint being probed (e.g. the cluster's ctx): cancelling the endpoint on removal does not stop its probes")
+							for ; origins > 0; origins-- {
+								x.check("R1", g, x.nth(g, "health check started under the endpoint's own ctx"), cs.Pos(), same,
+									"the context handed to "+fn.Name()+" is not the ctx field of the endpoint being probed (e.g. the cluster's ctx): cancelling the endpoint on removal does not stop its probes")
+							}
 						}
 					}
-					if nc == 0 {
-						c.Fail("R1", fn, "health check started under the endpoint's own ctx", fn.Pos(), "no caller of "+fn.Name()+" found")
+				}
+				callers(fn, pIdx, eIdx, eng.LiftDepth)
+				if nc == 0 {
+					c.Fail("R1", fn, "health check started under the endpoint's own ctx", fn.Pos(), "no caller of "+fn.Name()+" found")
+				}
+			}
+		}
+		n := 0
+		if own := x.probeCtxCreations(start); len(own) > 0 && epIdx >= 0 {
+			// the starter creates the probe context itself
+			for _, w := range own {
+				n++
+				judge(start, w, start.Params[epIdx], w.Pos(), x.nth(start, "probe ctx = WithCancel(ctx argument), cancel kept in cancelHealthCheck"))
+			}
+		} else {
+			for _, fn := range c.W.AllRepoFuncs() {
+				for _, ci := range eng.CallsToFn(fn, start) {
+					n++
+					construct := x.nth(fn, "probe ctx = WithCancel(ctx argument), cancel kept in cancelHealthCheck")
+					args := ci.Common().Args
+					if ctxIdx < 0 || epIdx < 0 || ctxIdx >= len(args) {
+						c.Undecided("R1", fn, construct, ci.Pos(), "startGatewayHealthCheck has no (endpoint, context) parameters")
+						continue
 					}
+					ws := x.resultsOf(args[ctxIdx], 0, c15IsWithCancel)
+					if len(ws) != 1 {
+						x.check("R1", fn, construct, ci.Pos(), false, "the probe goroutines do not get their own cancellable context: disabling the endpoint cannot stop them")
+						continue
+					}
+					judge(fn, ws[0], args[epIdx], ci.Pos(), construct)
 				}
 			}
 		}
@@ -526,7 +610,7 @@ func c15R2(x *c15x) {
 	// value is the callback, or in a helper the callback calls: the Region of syncEndpoints is
 	// scanned and every deletion is decided in every calling context that leads up to
 	// syncEndpoints (eng.UpChains). Obligations are reported against the callback.
-	if se := c.MustMethod(pkgClusters, "ClusterInfo", "syncEndpoints"); se != nil {
+	if se := c03SyncAnchor(c); se != nil {
 		n := 0
 		isSE := func(f *ssa.Function) bool { return f == se }
 		for _, fn := range c.W.Region(se) {
@@ -596,11 +680,46 @@ func c15R2(x *c15x) {
 						}
 					}
 				}
+				if !okC {
+					// the removal and the cancel may be split over a helper that hands the removed endpoint
+					// back (with or without an ok flag) and its caller: decided by forcing on the callback
+					okC, _ = x.cancelsRemoved(rep, epCancel, false, func(ci ssa.CallInstruction, _ eng.UpChain) bool { return ci == ssa.CallInstruction(l) })
+				}
 				x.check("R2", rep, x.nth(rep, "removed endpoint's cancel invoked"), l.Pos(), okC, whyC)
 
 				// the callback ranges over current∖wanted and never stops the iteration
 				if !oneCB || cb == nil {
-					c.Undecided("R2", fn, x.nth(fn, "removed set = current endpoints ∖ wanted servers"), l.Pos(), "deletion is not performed by a set-range callback; the removed set cannot be identified")
+					// the loop form: `for _, name := range removed.ToStrings() { … LoadAndDelete(name) … }`
+					// (the loop may call a helper that deletes: decided in every calling context)
+					var src *ssa.Call
+					var loop *eng.Loop
+					var body ssa.Instruction
+					for k, ch := range chains {
+						s1, l1, b1 := setIterSource(x.sl, l, ch)
+						if s1 == nil || (k > 0 && s1 != src) {
+							src = nil
+							break
+						}
+						src, loop, body = s1, l1, b1
+					}
+					if src == nil {
+						c.Undecided("R2", fn, x.nth(fn, "removed set = current endpoints ∖ wanted servers"), l.Pos(), "deletion is not performed by a set-range callback nor in a loop over the elements of a set; the removed set cannot be identified")
+						continue
+					}
+					okSet, whySet := true, ""
+					for _, ch := range chains {
+						// the source call sits in the function holding the loop: the part of the context above it
+						up := ch
+						for len(up) > 0 && up[0].Fn != src.Parent() {
+							up = up[1:]
+						}
+						if o, w := x.rangedIsRemoved(se, up, eng.Receiver(src)); !o {
+							okSet, whySet = false, w
+						}
+					}
+					x.check("R2", se, x.nth(se, "removed set = current endpoints ∖ wanted servers"), l.Pos(), okSet, whySet)
+					full := loop.OnlyHeaderExits() && loop.EveryIterationPasses(func(i ssa.Instruction) bool { return i == body })
+					x.check("R2", fn, x.nth(fn, "range callback never stops the iteration"), l.Pos(), full, "the loop over the removed endpoints can be left early or skips elements: the remaining removed endpoints are neither deleted nor cancelled")
 					continue
 				}
 				okSet, whySet := true, ""
@@ -640,7 +759,7 @@ func c15R2(x *c15x) {
 
 	// (2) DeleteWithStop stops the removed cluster
 	if dws := c.MustMethod(pkgClusters, "manager", "DeleteWithStop"); dws != nil {
-		ok, why := x.stopsRemoved(dws, map[int]bool{}, clCancel, 2)
+		ok, why := x.stopsRemoved(dws, clCancel)
 		x.check("R2", dws, "DeleteWithStop cancels the removed cluster's context", dws.Pos(), ok, why)
 	}
 	if stop := c.MustMethod(pkgClusters, "ClusterInfo", "Stop"); stop != nil {
@@ -658,10 +777,6 @@ func c15R2(x *c15x) {
 // and wanted collects the Endpoint of every element of the servers parameter, and that the
 // deleted key is the callback's element.
 func (x *c15x) removedSet(se, cb *ssa.Function, l *ssa.Call, ch eng.UpChain, rangeCall ssa.CallInstruction) (bool, string) {
-	isNames := func(v ssa.Value) bool {
-		cc, _ := eng.CallResultOf(v)
-		return cc != nil && eng.IsCall(cc, "(*"+c15TCluster+").AllEndpoints", "(*"+c15TEPMap+").Names")
-	}
 	// key = the callback's element parameter
 	keyOK := false
 	params := cb.Params
@@ -679,17 +794,29 @@ func (x *c15x) removedSet(se, cb *ssa.Function, l *ssa.Call, ch eng.UpChain, ran
 	if rangeCall == nil || !eng.MethodNameIs(rangeCall, "Range") {
 		return false, "the deleting closure is not passed to a Range call"
 	}
+	return x.rangedIsRemoved(se, ch, eng.Receiver(rangeCall))
+}
+
+// rangedIsRemoved checks that ranged, the set whose elements are removed (in calling context
+// ch), is current.Diff(wanted) where current derives from the cluster's endpoint names and
+// wanted collects the Endpoint of every element of the servers.
+func (x *c15x) rangedIsRemoved(se *ssa.Function, ch eng.UpChain, ranged ssa.Value) (bool, string) {
+	isNames := func(v ssa.Value) bool {
+		cc, _ := eng.CallResultOf(v)
+		return cc != nil && eng.IsCall(cc, "(*"+c15TCluster+").AllEndpoints", "(*"+c15TEPMap+").Names")
+	}
 	// the ranged set, followed through the parameters of the helpers on the way up to syncEndpoints
 	isDiff := func(u ssa.Value) bool { cc, _ := eng.CallResultOf(u); return cc != nil && eng.MethodNameIs(cc, "Diff") }
 	var diffs []*ssa.Call
-	for _, lf := range ch.Leaves(x.sl, eng.Receiver(rangeCall), isDiff) {
+	for _, lf := range ch.Leaves(x.sl, ranged, isDiff) {
 		cc, i := eng.CallResultOf(lf)
 		if cc == nil || i != -1 || !isDiff(lf) {
 			return false, "the ranged set is not the result of a single Diff"
 		}
 		diffs = append(diffs, cc)
 	}
-	if len(diffs) != 1 || eng.Outermost(diffs[0].Parent()) != se {
+	tree := x.c.W.Down(se, eng.LiftDepth, nil)
+	if len(diffs) != 1 || (eng.Outermost(diffs[0].Parent()) != se && len(tree.Of(diffs[0].Parent())) == 0) {
 		return false, "the ranged set is not the result of a single Diff"
 	}
 	d := diffs[0]
@@ -701,20 +828,36 @@ func (x *c15x) removedSet(se, cb *ssa.Function, l *ssa.Call, ch eng.UpChain, ran
 		return false, "the subtracted set derives from the current endpoint names, not from the wanted servers"
 	}
 	// wanted.Add(server.Endpoint) for elements of the servers parameter
-	var servers ssa.Value
-	for _, p := range se.Params[1:] {
-		if s, ok := p.Type().Underlying().(*types.Slice); ok && eng.TypeName(s.Elem()) == c15TServer {
-			servers = p
+	// (the servers are a parameter of the sync function, or — when it was merged into its
+	// caller — read from one: any non-receiver parameter of the anchor counts)
+	isServers := func(v ssa.Value) bool {
+		p, ok := v.(*ssa.Parameter)
+		return ok && p.Parent() == se && eng.ParamIndex(p) > 0
+	}
+	// (in syncEndpoints itself, or in a helper that builds the wanted set and returns it — possibly
+	// together with other sets: the receiver of Add and the subtracted set resolve to one value)
+	fills := false
+	for _, dd := range ctxsOf(tree, d.Parent()) {
+		want := dd.Canon(wanted)
+		for _, dc := range tree.All() {
+			for _, ci := range eng.Calls(dc.Fn) {
+				if !eng.MethodNameIs(ci, "Add") || !dc.Canon(eng.Receiver(ci)).Same(want) {
+					continue
+				}
+				for _, a := range eng.Args(ci) {
+					if x.sl.DerivesFrom(a, func(v ssa.Value) bool { return eng.FieldLoadOf(v, c15TServer, "Endpoint") }) &&
+						dc.DerivesFrom(x.sl, a, isServers) {
+						fills = true
+					}
+				}
+			}
 		}
 	}
-	fills := false
-	for _, ci := range eng.Calls(se) {
-		if !eng.MethodNameIs(ci, "Add") || eng.Receiver(ci) != wanted {
-			continue
-		}
-		for _, a := range eng.Args(ci) {
-			if x.sl.DerivesFrom(a, func(v ssa.Value) bool { return eng.FieldLoadOf(v, c15TServer, "Endpoint") }) &&
-				servers != nil && x.sl.DerivesFrom(a, func(v ssa.Value) bool { return v == servers }) {
+	if !fills {
+		// or the wanted set is constructed from the collected endpoint names in one go
+		// (NewSetFromStrings(names) instead of Add in a loop)
+		for _, dd := range ctxsOf(tree, d.Parent()) {
+			if dd.DerivesFrom(x.sa, wanted, func(v ssa.Value) bool { return eng.FieldLoadOf(v, c15TServer, "Endpoint") }) && dd.DerivesFrom(x.sa, wanted, isServers) {
 				fills = true
 			}
 		}
@@ -725,89 +868,316 @@ func (x *c15x) removedSet(se, cb *ssa.Function, l *ssa.Call, ch eng.UpChain, ran
 	return true, ""
 }
 
-// stopsRemoved: every path through the manager method fn removes an entry of
-// manager.clusters and, when an entry was present, cancels that cluster's context —
-// directly or by calling another manager method (bool arguments that are the constant true
-// are propagated so that `doDelete(name, true)` is evaluated with stop == true).
-func (x *c15x) stopsRemoved(fn *ssa.Function, trueParams map[int]bool, sp c15CancelSpec, depth int) (bool, string) {
-	cutFalse := func(from *ssa.BasicBlock, succ int) bool {
-		iff, ok := from.Instrs[len(from.Instrs)-1].(*ssa.If)
-		if !ok {
-			return false
+// stopsRemoved: every path through the manager method fn removes an entry of manager.clusters
+// and, when an entry was present, cancels that cluster's context. The rule is "under the
+// condition that the removal finds an entry, every path cancels it", so it is decided by
+// forcing: the paths of fn are enumerated with the loaded flag of sync.Map.LoadAndDelete
+// pinned to true and the stored cancel function pinned to non-nil, following same-package
+// callees (a delete helper taking a stop flag or the map itself, a helper that removes and
+// hands the removed cluster back with an ok flag, Stop); on every path a removal from
+// manager.clusters must be followed by an invocation of the cancel function of the value
+// that removal returned. Receivers and subjects inside helpers are related to the values of
+// the callers through the chain of calls executed on the path (eng.PathChain).
+func (x *c15x) stopsRemoved(fn *ssa.Function, sp c15CancelSpec) (bool, string) {
+	return x.cancelsRemoved(fn, sp, true, func(ci ssa.CallInstruction, ch eng.UpChain) bool {
+		return eng.RecvTypeName(ci) == "sync.Map" && eng.MethodNameIs(ci, "LoadAndDelete") &&
+			eng.FieldAddrOf(ch.Resolve(eng.Receiver(ci)), c15TManager, "clusters")
+	})
+}
+
+// cancelsRemoved is the forcing template "when the removal finds an entry, every path cancels
+// it": the paths of fn are enumerated with the loaded flag of every LoadAndDelete pinned to
+// true and the cancel function of the spec pinned to non-nil, following same-package
+// callees; on every path a removal (a LoadAndDelete call accepted by isRemoval, which is
+// given the chain of calls that leads to it) must be followed by an invocation of the cancel
+// function of the value that removal returned. mustRemove: a path without a removal fails.
+// A path on which the removed value itself is nil (a helper hands the removed object back
+// and the caller tests it against nil instead of an ok flag) is infeasible: the tables never
+// hold nil.
+func (x *c15x) cancelsRemoved(fn *ssa.Function, sp c15CancelSpec, mustRemove bool, isRemoval func(ci ssa.CallInstruction, ch eng.UpChain) bool) (bool, string) {
+	isLAD := func(ci ssa.CallInstruction) bool { return eng.MethodNameIs(ci, "LoadAndDelete") }
+	pkg := pkgClusters
+	in := &eng.Interp{W: x.c.W, Depth: eng.LiftDepth + 1, MaxPaths: 1 << 12,
+		PinCall: func(call *ssa.Call, idx int, _ *eng.State) (eng.AV, bool) {
+			if idx == 1 && isLAD(call) {
+				return eng.AVBool(true), true
+			}
+			return eng.AV{}, false
+		},
+		PinLoad: func(ld *ssa.UnOp, _ string) (eng.AV, bool) {
+			if eng.FieldAddrOf(ld.X, sp.typ, sp.field) {
+				return eng.AV{K: eng.NonNilV}, true
+			}
+			return eng.AV{}, false
+		},
+		FollowCall: func(callee *ssa.Function) bool {
+			// the table's own LoadAndDelete wrapper is the removal, not a helper to look into
+			return callee.Pkg != nil && callee.Pkg.Pkg.Path() == pkg && callee.Name() != "LoadAndDelete"
+		},
+	}
+	paths, err := in.Run(fn, nil)
+	if err != nil || len(paths) == 0 {
+		return false, "the paths of " + eng.FuncName(fn) + " cannot be enumerated"
+	}
+	for pi := range paths {
+		pr := &paths[pi]
+		if pr.Panicked {
+			continue
 		}
-		rel := eng.RelOf(iff.Cond, succ == 0)
-		p, isP := rel.X.(*ssa.Parameter)
-		if !isP || p.Parent() != fn {
-			return false
+		if pr.LoopCut {
+			return false, "a path through " + eng.FuncName(fn) + " loops"
 		}
-		idx := -1
-		for i, q := range fn.Params {
-			if q == p {
+		rm := -1
+		for k, ci := range pr.Calls {
+			if _, isCall := ci.(*ssa.Call); !isCall || !isLAD(ci) {
+				continue
+			}
+			if ch, ok := eng.PathChain(pr, k, fn); ok && isRemoval(ci, ch) {
+				rm = k
+				break
+			}
+		}
+		if rm < 0 {
+			if mustRemove {
+				return false, "a path through " + eng.FuncName(fn) + " neither removes the entry nor stops the cluster"
+			}
+			continue
+		}
+		removal := pr.Calls[rm].(*ssa.Call)
+		isRemoved := func(u ssa.Value) bool { cc, idx := eng.CallResultOf(u); return cc == removal && idx == 0 }
+		cancelled := false
+		for k := rm + 1; k < len(pr.Calls) && !cancelled; k++ {
+			ci := pr.Calls[k]
+			if _, isGo := ci.(*ssa.Go); isGo {
+				continue
+			}
+			cc := ci.Common()
+			if cc.IsInvoke() || cc.StaticCallee() != nil {
+				continue
+			}
+			ch, okCh := eng.PathChain(pr, k, fn)
+			if !okCh {
+				continue
+			}
+			// the invoked function value is the cancel field of the removed object — read here, or
+			// read by a caller on this path and handed down as an argument
+			for _, fl := range ch.Leaves(x.sl, cc.Value, func(v ssa.Value) bool { return eng.FieldLoadOf(v, sp.typ, sp.field) }) {
+				base := eng.FieldBase(fl, sp.typ, sp.field)
+				if base == nil {
+					continue
+				}
+				// the chain below the function the field was read in
+				up := ch
+				if ins, isIns := fl.(ssa.Instruction); isIns {
+					for len(up) > 0 && up[0].Fn != ins.Parent() {
+						up = up[1:]
+					}
+				}
+				if up.DerivesFrom(x.sl, base, isRemoved) || ch.DerivesFrom(x.sl, base, isRemoved) {
+					cancelled = true
+				}
+			}
+		}
+		if !cancelled && pr.Final != nil {
+			for _, v := range pr.Final.NilValues() {
+				// the removed object itself (handed on unchanged), not something read from it
+				if eng.MayBeObject(v, isRemoved) {
+					cancelled = true
+					break
+				}
+			}
+		}
+		if !cancelled {
+			return false, "after removing the entry from the table a path returns without cancelling the removed object's context: requests in flight to it are left hanging and its endpoints keep being probed"
+		}
+	}
+	return true, ""
+}
+
+// endpointCtxOK: parent — the parent context of an endpoint context created in fn for the
+// endpoint object obj — is the context of a cluster that is a parameter / receiver of fn (or
+// captured from an enclosing function), and obj is registered in that cluster's Endpoints map
+// (by fn, or by its callers when fn hands the new endpoint back). When fn is a constructor
+// that is handed the context instead of the cluster (`newEndpointInfo(c.Context(), …)`), the
+// same is decided at every call of fn, for the argument and for the returned endpoint.
+func (x *c15x) endpointCtxOK(fn *ssa.Function, parent, obj ssa.Value, depth int) (bool, string) {
+	var recv ssa.Value // filled below: the cluster whose ctx is the parent
+	isClusterCtx := func(v ssa.Value) bool {
+		if eng.FieldLoadOf(v, c15TCluster, "ctx") {
+			return true
+		}
+		cc, _ := eng.CallResultOf(v)
+		return cc != nil && eng.IsCall(cc, "(*"+c15TCluster+").Context")
+	}
+	// the creating function may be a function literal (the add/update function merged into the
+	// Range callback of the sync function): the cluster it captured is resolved to the
+	// enclosing function's parameter
+	canon := x.canonIn(fn)
+	leaves := x.sl.Leaves(parent, isClusterCtx)
+	if len(leaves) == 0 {
+		return false, "parent context of unknown origin"
+	}
+	for _, l := range leaves {
+		var owner ssa.Value
+		if b := eng.FieldBase(l, c15TCluster, "ctx"); b != nil {
+			owner = b
+		} else if cc, _ := eng.CallResultOf(l); cc != nil && isClusterCtx(l) {
+			owner = eng.Receiver(cc)
+		}
+		if owner == nil {
+			// a context parameter of a constructor: decided at its call sites
+			if p, isP := l.(*ssa.Parameter); isP && p.Parent() == fn && c15IsContext(p.Type()) && len(leaves) == 1 && depth > 0 {
+				return x.endpointCtxAtCallers(fn, p, obj, depth)
+			}
+			return false, "the endpoint's context is not derived from a cluster context (e.g. context.Background()): ClusterInfo.Stop() on deletion of the cluster no longer ends the requests and probes of this endpoint"
+		}
+		owner = canon(owner)
+		if p, isP := owner.(*ssa.Parameter); !isP || (p.Parent() != fn && !c15Encloses(p.Parent(), fn)) {
+			return false, "the cluster whose context is the parent is not a parameter/receiver of the creating function: cannot tell that it is the cluster the endpoint belongs to"
+		}
+		if recv != nil && owner != recv {
+			return false, "the endpoint's context has parents in two different clusters"
+		}
+		recv = owner
+	}
+	// the endpoint object is registered in the receiver's own map — by the creating function, or,
+	// when that is a helper handing the new endpoint back, by every caller of the helper
+	if !x.registeredIn(fn, obj, recv, eng.LiftDepth) {
+		return false, "the endpoint whose context is created here is not stored into the Endpoints map of the cluster whose context is its parent (it would be cancelled with one cluster and serve another)"
+	}
+	return true, ""
+}
+
+// endpointCtxAtCallers: fn is handed the parent context as parameter p and returns the new
+// endpoint obj: every call of fn (all callers must be known) passes a cluster's context and
+// registers the returned endpoint in that cluster's map.
+func (x *c15x) endpointCtxAtCallers(fn *ssa.Function, p *ssa.Parameter, obj ssa.Value, depth int) (bool, string) {
+	idx := -1
+	for _, r := range eng.Returns(fn) {
+		for i, v := range eng.ReturnResults(r) {
+			for _, o := range eng.PhiOrigins(v) {
+				if o == obj {
+					idx = i
+				}
+			}
+		}
+	}
+	sites := x.c.W.LiftSites(fn)
+	pIdx := eng.ParamIndex(p)
+	if idx < 0 || len(sites) == 0 || pIdx < 0 {
+		return false, "the endpoint's context is a child of a context parameter of " + fn.Name() + ", whose callers are not all known (or which does not hand the new endpoint back): cannot tell that it is the context of the cluster the endpoint belongs to"
+	}
+	for _, s := range sites {
+		call, isCall := s.(*ssa.Call)
+		if !isCall || pIdx >= len(call.Call.Args) {
+			return false, "the constructor " + fn.Name() + " is not called directly"
+		}
+		var results []ssa.Value
+		if fn.Signature.Results().Len() == 1 {
+			results = append(results, call)
+		} else {
+			for _, e := range eng.ExtractOf(call, idx) {
+				results = append(results, e)
+			}
+		}
+		if len(results) == 0 {
+			return false, "a caller of " + fn.Name() + " drops the new endpoint"
+		}
+		for _, r := range results {
+			if ok, why := x.endpointCtxOK(call.Parent(), call.Call.Args[pIdx], r, depth-1); !ok {
+				return false, why
+			}
+		}
+	}
+	return true, ""
+}
+
+// canonIn returns the canonicalisation of values of fn in the context fn runs in below its
+// outermost enclosing function (captured variables resolve to the enclosing function's
+// values); plain unspilling when fn is not a function literal with one such context.
+func (x *c15x) canonIn(fn *ssa.Function) func(ssa.Value) ssa.Value {
+	if fn.Parent() != nil {
+		if ds := x.c.W.Down(eng.Outermost(fn), eng.LiftDepth, nil).Of(fn); len(ds) == 1 {
+			return func(v ssa.Value) ssa.Value {
+				if r := ds[0].Canon(v); r.V != nil {
+					return r.V
+				}
+				return v
+			}
+		}
+	}
+	return unspill
+}
+
+// c15Encloses: outer is an enclosing function of the function literal inner.
+func c15Encloses(outer, inner *ssa.Function) bool {
+	for f := inner.Parent(); f != nil; f = f.Parent() {
+		if f == outer {
+			return true
+		}
+	}
+	return false
+}
+
+// registeredIn: obj, an endpoint created in fn with a context derived from cluster recv, is
+// stored into the Endpoints map of that cluster — in fn itself, or, when fn is a helper that
+// hands the new endpoint to its callers as a result, by every caller of the helper (for the
+// cluster the caller passes as recv). The helper's callers must be completely known.
+func (x *c15x) registeredIn(fn *ssa.Function, obj, recv ssa.Value, depth int) bool {
+	mayBe := func(v ssa.Value) bool {
+		for _, o := range eng.PhiOrigins(v) {
+			if o == obj {
+				return true
+			}
+		}
+		return false
+	}
+	for _, ci := range eng.CallsTo(fn, "(*"+c15TEPMap+").Store", "(*"+c15TEPMap+").LoadOrStore") {
+		a := eng.Args(ci)
+		if b := eng.FieldBase(eng.Receiver(ci), c15TCluster, "Endpoints"); len(a) == 2 && mayBe(a[1]) && b != nil && (b == recv || x.canonIn(fn)(b) == recv) {
+			return true
+		}
+	}
+	rp, isP := recv.(*ssa.Parameter)
+	if depth <= 0 || !isP || rp.Parent() != fn {
+		return false
+	}
+	idx := -1
+	for _, r := range eng.Returns(fn) {
+		for i, v := range eng.ReturnResults(r) {
+			if mayBe(v) {
 				idx = i
 			}
 		}
-		// this edge is taken only when the parameter is false
-		return trueParams[idx] && ((rel.Op == token.EQL && eng.IsBoolConst(rel.Y, false)) || (rel.Op == token.NEQ && eng.IsBoolConst(rel.Y, true)))
 	}
-	why := ""
-	handled := func(i ssa.Instruction) bool {
-		ci, ok := i.(*ssa.Call)
-		if !ok {
+	sites := x.c.W.LiftSites(fn)
+	pIdx := eng.ParamIndex(rp)
+	if idx < 0 || len(sites) == 0 || pIdx < 0 {
+		return false
+	}
+	for _, s := range sites {
+		call, isCall := s.(*ssa.Call)
+		if !isCall || pIdx >= len(call.Call.Args) {
 			return false
 		}
-		// a removal from the table, followed on its loaded edge by the cancel
-		if eng.RecvTypeName(ci) == "sync.Map" && eng.MethodNameIs(ci, "LoadAndDelete") && eng.FieldAddrOf(eng.Receiver(ci), c15TManager, "clusters") {
-			isRemoved := func(v ssa.Value) bool {
-				return x.sl.DerivesFrom(v, func(u ssa.Value) bool { cc, idx := eng.CallResultOf(u); return cc == ci && idx == 0 })
+		var results []ssa.Value
+		if fn.Signature.Results().Len() == 1 {
+			results = append(results, call)
+		} else {
+			for _, e := range eng.ExtractOf(call, idx) {
+				results = append(results, e)
 			}
-			var starts []*ssa.BasicBlock
-			for _, e := range eng.ExtractOf(ci, 1) {
-				for _, br := range eng.BranchesOn(e) {
-					starts = append(starts, br.OnTrue)
-				}
-			}
-			if len(starts) == 0 {
-				why = "the loaded flag of the removal is not branched on"
+		}
+		if len(results) == 0 {
+			return false
+		}
+		for _, r := range results {
+			if !x.registeredIn(call.Parent(), r, call.Call.Args[pIdx], depth-1) {
 				return false
 			}
-			for _, b := range starts {
-				if !c15AlwaysCancels(b, isRemoved, sp, 2, cutFalse) {
-					why = "after removing the entry from the table a path returns without cancelling the removed cluster's context: requests in flight to the deleted cluster are left hanging and its endpoints keep being probed"
-					return false
-				}
-			}
-			return true
 		}
-		callee := ci.Call.StaticCallee()
-		if callee == nil || callee.Blocks == nil || depth <= 0 || callee == fn || callee.Signature.Recv() == nil || eng.TypeName(callee.Signature.Recv().Type()) != c15TManager {
-			return false
-		}
-		tp := map[int]bool{}
-		for k, a := range ci.Call.Args {
-			if eng.IsBoolConst(a, true) {
-				tp[k] = true
-			}
-			if p, isP := a.(*ssa.Parameter); isP && p.Parent() == fn {
-				for j, q := range fn.Params {
-					if q == p && trueParams[j] {
-						tp[k] = true
-					}
-				}
-			}
-		}
-		ok2, w := x.stopsRemoved(callee, tp, sp, depth-1)
-		if !ok2 {
-			why = w
-		}
-		return ok2
 	}
-	if esc := eng.ReachFromEntry(fn, eng.PathQuery{Target: eng.IsExit, Avoid: handled, BlockEdge: cutFalse}); esc != nil {
-		if why == "" {
-			why = "a path through " + eng.FuncName(fn) + " neither removes the entry nor stops the cluster"
-		}
-		return false, why
-	}
-	return true, ""
+	return true
 }
 
 // notFoundUsesStop: every manager deletion reachable on the NotFound edge of the gateway
@@ -893,7 +1263,16 @@ func c15R3(x *c15x) {
 	if sh == nil {
 		return
 	}
-	pops := eng.CallsTo(sh, "("+pkgClusters+".EndpointPicker).Pop")
+	x.up = true
+	x.tree = c.W.Down(sh, eng.LiftDepth, nil)
+	defer func() { x.up, x.tree = false, nil }()
+	// picking, watcher and forwarding may sit in a helper ServeHTTP hands the admitted request to:
+	// they are looked up in the Region of ServeHTTP
+	region := c.W.Region(sh)
+	var pops []ssa.CallInstruction
+	for _, fn := range region {
+		pops = append(pops, eng.CallsTo(fn, "("+pkgClusters+".EndpointPicker).Pop")...)
+	}
 	if len(pops) != 1 {
 		c.Fail("R3", sh, "goroutine watches the picked endpoint's context", sh.Pos(), fmt.Sprintf("expected exactly one Pop(), found %d", len(pops)))
 		return
@@ -915,14 +1294,19 @@ func c15R3(x *c15x) {
 				return false
 			}
 			for _, cx := range ctxs {
-				leaves := x.leaves(eng.Receiver(cx), isPicked)
-				if len(leaves) == 0 {
-					return false
-				}
-				for _, l := range leaves {
-					if !isPicked(l) {
+				// every origin is the Pop result (or the nil a picking helper returns with its failure)
+				n := 0
+				for _, l := range x.leaves(eng.Receiver(cx), isPicked) {
+					switch {
+					case isPicked(l):
+						n++
+					case eng.IsNilConst(l):
+					default:
 						return false
 					}
+				}
+				if n == 0 {
+					return false
 				}
 			}
 		}
@@ -935,39 +1319,43 @@ func c15R3(x *c15x) {
 		k   int
 	}
 	var ws []watch
-	eng.Instrs(sh, func(ins ssa.Instruction) {
-		g, ok := ins.(*ssa.Go)
-		if !ok {
-			return
-		}
-		f := c.W.FuncOfValue(g.Call.Value)
-		if f == nil || f.Blocks == nil {
-			return
-		}
-		x.bindGo(g, f)
-		eng.Instrs(f, func(i ssa.Instruction) {
-			if s, ok := i.(*ssa.Select); ok {
-				if k := c15WatchCase(s, isEndpointDone); k >= 0 {
-					ws = append(ws, watch{g, f, s, k})
-				}
+	for _, rf := range region {
+		eng.Instrs(rf, func(ins ssa.Instruction) {
+			g, ok := ins.(*ssa.Go)
+			if !ok {
+				return
 			}
+			f := c.W.FuncOfValue(g.Call.Value)
+			if f == nil || f.Blocks == nil {
+				return
+			}
+			x.bindGo(g, f)
+			eng.Instrs(f, func(i ssa.Instruction) {
+				if s, ok := i.(*ssa.Select); ok {
+					if k := c15WatchCase(s, isEndpointDone); k >= 0 {
+						ws = append(ws, watch{g, f, s, k})
+					}
+				}
+			})
 		})
-	})
+	}
 	if len(ws) == 0 {
 		c.Fail("R3", sh, "goroutine watches the picked endpoint's context", sh.Pos(), "no goroutine started by ServeHTTP selects on Done() of the Context() of the endpoint returned by Pop(): removing that endpoint (or deleting its cluster) does not cut the request being proxied to it — e.g. a watch keeps streaming from a removed endpoint")
 		return
 	}
 	// the forwarding call: ServeHTTP on the handler built by NewUpgradeAwareHandler
 	var fwds []ssa.CallInstruction
-	for _, ci := range eng.Calls(sh) {
-		if !eng.MethodNameIs(ci, "ServeHTTP") || len(eng.Args(ci)) != 2 {
-			continue
-		}
-		if x.sl.DerivesFrom(eng.Receiver(ci), func(v ssa.Value) bool {
-			cc, _ := eng.CallResultOf(v)
-			return cc != nil && eng.IsCall(cc, pkgDispatcher+".NewUpgradeAwareHandler")
-		}) {
-			fwds = append(fwds, ci)
+	for _, rf := range region {
+		for _, ci := range eng.Calls(rf) {
+			if !eng.MethodNameIs(ci, "ServeHTTP") || len(eng.Args(ci)) != 2 {
+				continue
+			}
+			if x.sl.WithUp().DerivesFrom(eng.Receiver(ci), func(v ssa.Value) bool {
+				cc, _ := eng.CallResultOf(v)
+				return cc != nil && eng.IsCall(cc, pkgDispatcher+".NewUpgradeAwareHandler")
+			}) {
+				fwds = append(fwds, ci)
+			}
 		}
 	}
 	for _, w := range ws {
@@ -1033,7 +1421,7 @@ func c15R3(x *c15x) {
 		// started before forwarding, on every path and for every forwarding call
 		before := len(fwds) > 0
 		for _, fwd := range fwds {
-			if !eng.AlwaysBefore(sh, fwd, func(i ssa.Instruction) bool { return i == ssa.Instruction(w.g) }) {
+			if !eng.AlwaysBefore(fwd.Parent(), fwd, func(i ssa.Instruction) bool { return i == ssa.Instruction(w.g) }) {
 				before = false
 			}
 		}
@@ -1045,7 +1433,7 @@ func c15R3(x *c15x) {
 
 func c15R4(x *c15x) {
 	c := x.c
-	start := c.MustFunc(pkgClusters, "startGatewayHealthCheck")
+	start := c03ProbeStarter(c)
 	if start == nil {
 		return
 	}
@@ -1055,7 +1443,25 @@ func c15R4(x *c15x) {
 			ctxParam = p
 		}
 	}
-	if ctxParam == nil {
+	// the probe context: the ctx parameter of the starter, or — when the starter creates it
+	// itself (the single-use start function merged into its caller) — the context of the
+	// WithCancel whose cancel function it keeps in cancelHealthCheck
+	own := x.probeCtxCreations(start)
+	isOwn := func(v ssa.Value) bool {
+		cc, idx := eng.CallResultOf(v)
+		if cc == nil || idx != 0 {
+			return false
+		}
+		for _, w := range own {
+			if w == cc {
+				return true
+			}
+		}
+		return false
+	}
+	if len(own) > 0 {
+		ctxParam = nil
+	} else if ctxParam == nil {
 		c.Fail("R4", start, "probe goroutine loops select on ctx.Done()", start.Pos(), "startGatewayHealthCheck has no context parameter")
 		return
 	}
@@ -1065,12 +1471,12 @@ func c15R4(x *c15x) {
 			return false
 		}
 		for _, d := range dones {
-			leaves := x.leaves(eng.Receiver(d), nil)
+			leaves := x.leaves(eng.Receiver(d), isOwn)
 			if len(leaves) == 0 {
 				return false
 			}
 			for _, l := range leaves {
-				if l != ssa.Value(ctxParam) {
+				if !(ctxParam != nil && l == ssa.Value(ctxParam)) && !isOwn(l) {
 					return false
 				}
 			}
